@@ -77,6 +77,7 @@ pub fn run_child(spec: RunSpec, scen: ScenFn, cpu: usize) -> RunOut {
         .spawn(move || {
             let spec = spec2;
             sim::activate(mix2(spec.seed, 3));
+            sim::reset_hash_source(mix2(spec.seed, 4));
             let wt = match &spec.wtape {
                 Some(v) => sim::Tape::replay(v.clone()),
                 None => sim::Tape::random(mix2(spec.seed, 1)),
